@@ -4,7 +4,7 @@ Implementation of hooks and APIs for outputting log messages.
 
 import traceback
 import inspect
-from threading import Lock
+from threading import Lock, RLock
 from functools import wraps
 from io import IOBase
 import warnings
@@ -37,7 +37,9 @@ class BufferingDestination(object):
 
     def __init__(self):
         self.messages = []
-        self._lock = Lock()
+        # Reentrant, since a destination that is being handed the buffered
+        # messages (with the lock held) may itself log:
+        self._lock = RLock()
         # Once the buffer has been handed over to real destinations, the
         # function late arrivals are passed on to:
         self._forward = None
@@ -91,9 +93,12 @@ class Destinations(object):
         """
         self._report(message, self._deliver(message), logger)
 
-    def _deliver(self, message):
+    def _deliver(self, message, destinations=None):
         """
         Call every destination with the message.
+
+        @param destinations: The destinations to call, by default the
+            registered ones.
 
         @return: The exceptions raised by destinations that should be
             reported, as a L{list}.
@@ -103,7 +108,9 @@ class Destinations(object):
         is_destination_error_message = (
             message.get("message_type", None) == DESTINATION_FAILURE
         )
-        for dest in self._destinations:
+        if destinations is None:
+            destinations = self._destinations
+        for dest in destinations:
             try:
                 dest(message)
             except Exception as e:
@@ -157,19 +164,25 @@ class Destinations(object):
             # BufferingDestination:
             self._any_added = True
             buffer = self._destinations[0]
-            # Replace the list in one step, so concurrent senders see either
-            # the buffer or the new destinations, never an empty list:
-            self._destinations = list(destinations)
+            new_destinations = list(destinations)
             with buffer._lock:
-                # Re-deliver buffered messages. Failures are reported only
-                # once all of them have been delivered, so that the reports
-                # (which are newer messages) don't overtake older ones:
+                # Re-deliver buffered messages before any other sender can
+                # see the new destinations: until then concurrent senders
+                # still find the buffer, wait for its lock and are forwarded
+                # afterwards, so nothing newer overtakes a buffered message.
                 failures = [
-                    (message, self._deliver(message)) for message in buffer.messages
+                    (message, self._deliver(message, new_destinations))
+                    for message in buffer.messages
                 ]
-                for message, errors in failures:
-                    self._report(message, errors)
+                # Replace the list in one step, so concurrent senders see
+                # either the buffer or the new destinations, never an empty
+                # list:
+                self._destinations = new_destinations
                 buffer._forward = self.send
+            # Failures are reported only now, so that the reports (which are
+            # newer messages) don't overtake older ones either:
+            for message, errors in failures:
+                self._report(message, errors)
         else:
             self._destinations.extend(destinations)
 
